@@ -67,7 +67,16 @@ func (pt *ParsedTable) ToMarkdown() string {
 		sb.WriteString("|")
 		colIdx := 0
 		for _, cell := range row.Cells {
+			span := cell.ColSpan
+			if span < 1 {
+				span = 1
+			}
 			if cell.IsMergedContinuation {
+				// Markdown has no merged cells: keep the grid with empty cells
+				for s := 0; s < span; s++ {
+					sb.WriteString(" |")
+				}
+				colIdx += span
 				continue
 			}
 			// Replace newlines and pipes within cells
@@ -78,9 +87,9 @@ func (pt *ParsedTable) ToMarkdown() string {
 			sb.WriteString(text)
 			sb.WriteString(" |")
 
-			span := cell.ColSpan
-			if span < 1 {
-				span = 1
+			// A cell spanning several columns is followed by empty cells
+			for s := 1; s < span; s++ {
+				sb.WriteString(" |")
 			}
 			colIdx += span
 		}
